@@ -502,7 +502,7 @@ func (r *RefRun) decide(s *Step) bool {
 			"outputs.success": I, "outputs.error": I, "outputs.cancelled_early": I, "closed.result": Produced,
 			"starting.started": U, "enabling.resolved": U, "disabled.output": U, "deploy_failed.error": U, "crashed.error": N,
 		}, N)
-		if sc.Deploy == env.DeployOK {
+		if sc.Deploy == env.DeployOK && (sc.DeployMS == 0 || sc.DeployIgnoreCtx) {
 			r.set(s.ID, "closed", "result", Produced, map[string]any{"cancelled": true, "close_requested": false})
 		} else {
 			// a deployment that fails (or is aborted) may be reported as deploy_failed instead of closed
